@@ -833,7 +833,7 @@ def IR.body (ir : IR) (k : Nat) : P Unit :=
 
 /-- the closure `Scope::spawn` wraps around a scoped thread's function (shuttle-std/src/thread.rs):
 its own pre-exit switch, `finished := true`, and — when it is the last running thread of the
-scope — an unconditional `unblock(main_task)` (F10); `thread_fn` is told not to switch again -/
+scope — `unblock(main_task)` only when the main task waits at the end of `scope` (F10 repaired); `thread_fn` is told not to switch again -/
 def IR.scopedBody (ir : IR) (k sid : Nat) : P Unit :=
   let ops := ((ir.tasks[k]?).getD {}).ops
   threadFn ir k (do
